@@ -8,6 +8,7 @@ pub mod c07;
 pub mod c08;
 pub mod c09;
 pub mod c12;
+pub mod c13;
 pub mod c15;
 pub mod common;
 
@@ -25,9 +26,10 @@ pub fn spec(id: &str) -> Option<PropertySpec> {
         "C08" => Some(c08::spec()),
         "C09" => Some(c09::spec()),
         "C12" => Some(c12::spec()),
+        "C13" => Some(c13::spec()),
         "C15" => Some(c15::spec()),
         _ => None,
     }
 }
 
-pub const ALL: [&str; 11] = ["C01", "C02", "C03", "C04", "C05", "C06", "C07", "C08", "C09", "C12", "C15"];
+pub const ALL: [&str; 12] = ["C01", "C02", "C03", "C04", "C05", "C06", "C07", "C08", "C09", "C12", "C13", "C15"];
